@@ -428,6 +428,11 @@ pub struct World {
     /// do not advance the clock by more than this in one step (an event further away counts as
     /// "nothing can happen"); lets hostile-peer checks ignore timers armed absurdly far ahead
     pub max_jump_ns: u64,
+    /// an address an endpoint has moved away from dies this long after the move (a NAT binding
+    /// that lingers, then is gone): datagrams sent to it later are lost instead of still reaching
+    /// the endpoint. `left_at` records the moves.
+    pub old_addresses_die_after_ns: Option<u64>,
+    pub left_at: BTreeMap<SocketAddr, u64>,
     /// Retry packets put on the wire so far
     pub retry_seen: u32,
     polled_pending: BTreeSet<(usize, usize)>,
@@ -559,6 +564,8 @@ impl World {
             pair_cfg: BTreeMap::new(),
             on_accept_inject: BTreeMap::new(),
             max_jump_ns: u64::MAX,
+            old_addresses_die_after_ns: None,
+            left_at: BTreeMap::new(),
             retry_seen: 0,
             polled_pending: BTreeSet::new(),
             pending_wake: false,
@@ -960,6 +967,12 @@ impl World {
             self.net.fired.inc("undeliverable");
             return;
         };
+        if let Some(grace) = self.old_addresses_die_after_ns {
+            if d.dst != self.eps[ei].addr && self.left_at.get(&d.dst).map_or(false, |t| self.now > t + grace) {
+                self.net.fired.inc("dead_address");
+                return;
+            }
+        }
         if self.vanished.contains(&ei) {
             return;
         }
